@@ -27,7 +27,7 @@ LEVEL_TEXT = ("Proved for all sizes/inputs of the model: C04_ctrl_state (X conju
               "MCX = C^k(U); C04_abc_model: the same for the executable model's matrices), C04_multitarget, C04_ldmcsu_circuit (the "
               "model's linear_depth_mcv gate list denotes C^k((A'XAX)^2) for every k>=2, pattern and wire layout).  Part B "
               "(Ldmcu, Qdmcu, Mcg, MCU): C04_pairs, C04_ladder_diag_partial, C04_ladder_weights, C04_ladder_run_partial, C04_qdmcu(_step), C04_mcg_dispatch, C04_mcu_base, "
-              "C04_mcu_error_partial (see props/c04_u2.py).  Unconditional (C05 composed in, V-chains and the .inverse() V-chain "
+              "C04_mcu_error_partial, C04_mcu_operator, C04_mcu_degenerate, C04_mcu_error (whole approximate gate, operator norm, all states; see props/c04_u2.py).  Unconditional (C05 composed in, V-chains and the .inverse() V-chain "
               "expanded to the primitive gates the tie compares): C04_vchain_inverse (the expanded McxVchainDirty and its qiskit "
               "inverse both denote the ideal MCX on every duplicate-free wire list), C04_ldmcsu_full (the expanded linear_depth_mcv "
               "list denotes C^k((A'XAX)^2) for every k>=2, layout, pattern, state; no MCX hypothesis), C04_ldmcsu_full_defined "
@@ -62,6 +62,7 @@ THEOREMS = ["Qclib.C04_ctrl_state", "Qclib.C04_ctrl_state_bits", "Qclib.C04_slic
             "Qclib.C04_pairs", "Qclib.C04_ladder_diag_partial", "Qclib.C04_ladder_weights", "Qclib.C04_ladder_run_partial",
             "Qclib.C04_qdmcu_step", "Qclib.C04_qdmcu",
             "Qclib.C04_mcg_dispatch", "Qclib.C04_mcu_base", "Qclib.C04_mcu_error_partial",
+            "Qclib.C04_mcu_operator", "Qclib.C04_mcu_degenerate", "Qclib.C04_mcu_error",
     "Qclib.C04_lm_bracket",
     "Qclib.C04_ldmcsp_spec_all",
     "Qclib.C04_eig_algebra",
@@ -92,8 +93,10 @@ ASSUMPTIONS = ["exact arithmetic in the theorems; implementation compared to 1e-
                "_params_zyz returns (theta, phi, lam) with U = RZ(phi) RY(theta) RZ(lam) for U in SU(2)",
                "part B: C04_qdmcu assumes an ideal multi-controlled X and exact square roots V*V = U, V'*V = 1; "
                "C04_ladder_*_partial prove the exponent bookkeeping of the four sweeps under classical propagation, the "
-               "operator-level lift is stated, not proved; C04_mcu_error_partial proves the one-qubit norm bound, the lift to "
-               "the spectral norm of the full circuit is assumed"]
+               "operator-level lift is C04_ldmcu_full; MCU: C04_mcu_operator (the truncated ladder is C^k(U) times one omitted root "
+               "controlled by the k-b+1 lowest controls) and C04_mcu_error (operator-norm bound <= error for every state, all k, "
+               "patterns and accepted base counts) are proved given U's eigen-decomposition and the exact real base count; "
+               "the multi-target RX call inside MCU has its ideal meaning there (C04_multitarget_spec)"]
 RULE = ("tie: (class, matrix family, k, ctrl_state) tuples whose flattened definition was diffed against the Lean model; "
         "oracle: Operator(definition) vs reference controlled-U for distinct (class, family, k, ctrl_state); non-trivial = "
         "k>=2 and U != I")
